@@ -40,7 +40,9 @@ def s_case(draw, tier):
     return {"d": d, "bath": b, "total": kind == "total", "sys": draw(sysgen.sys_spec(d)),
             "rho0": draw(gens.dm_spec(d)), "par": p, "t0": draw(st.sampled_from([0.0, 0.4])),
             "mf": draw(st.integers(0, 3)) == 0, "a0": draw(gens.cnum(1, 4)),
-            "B": draw(gens.cmatrix(d, d, 1, 2))}
+            "B": draw(gens.cmatrix(d, d, 1, 2)),
+            "o2": [draw(st.sampled_from(draw(st.sampled_from(POOLS)))) for _ in range(d)],
+            "mf_second": draw(st.sampled_from(["none", "same", "other", "other-first"]))}
 
 
 def run_case(case):
@@ -81,17 +83,32 @@ def run_case(case):
     out.check_close("tempo", res[True][0], res[False][0], tempogen.trunc_tol(p, 100.0), "TEMPO unique on/off")
     out.check_close("pt-tempo", res[True][1], res[False][1], tempogen.trunc_tol(p, 1000.0), "PT-TEMPO unique on/off")
     if case["mf"]:
-        out.label("mean-field")
+        second = case.get("mf_second", "none")
+        out.label("mean-field", "mf-second=" + second)
         B = gens.to_c(case["B"])
         H0 = gens.herm(case["sys"]["H0"])
-        sysf = oqupy.TimeDependentSystemWithField(lambda t, a: H0 + 0.3 * (a * B + np.conj(a) * B.conj().T))
-        mfs = oqupy.MeanFieldSystem([sysf], lambda t, st_, a: (-0.1 + 0.5j) * a + 0.3 * t + 0.5 * np.trace(st_[0] @ B))
+        mk = lambda: oqupy.TimeDependentSystemWithField(lambda t, a: H0 + 0.3 * (a * B + np.conj(a) * B.conj().T))
+        blist, rlist = [bath], [rho0]
+        if second != "none":
+            o2 = np.array(case["o2"], dtype=float)
+            if second == "same" or o2.max() == o2.min():
+                b2 = bath
+            else:
+                bs2 = dict(b, o=list(o2), V={"kind": "identity"})
+                b2 = tempogen.build_bath(bs2, p, d)[0]
+            if second == "other-first":
+                blist, rlist = [b2, bath], [rho0.T.copy(), rho0]
+            else:
+                blist, rlist = [bath, b2], [rho0, rho0.T.copy()]
+        ns = len(blist)
+        mfs = oqupy.MeanFieldSystem([mk() for _ in range(ns)],
+                                    lambda t, st_, a: (-0.1 + 0.5j) * a + 0.3 * t + sum(0.5 / ns * np.trace(x @ B) for x in st_))
         a0 = complex(*case["a0"])
         r = {}
         for u in (False, True):
-            dm = oqupy.MeanFieldTempo(mfs, [bath], par, [rho0], a0, start_time=t0, unique=u).compute(
+            dm = oqupy.MeanFieldTempo(mfs, blist, par, rlist, a0, start_time=t0, unique=u).compute(
                 t_end, progress_type="silent")
-            r[u] = (np.array(dm.system_dynamics[0].states), np.array(dm.fields))
+            r[u] = (np.concatenate([np.array(x.states) for x in dm.system_dynamics]), np.array(dm.fields))
         amax = max(1.0, float(np.abs(r[False][1]).max()))
         out.check_close("mean-field/states", r[True][0], r[False][0], tempogen.trunc_tol(p, 100.0, scale=amax))
         out.check_close("mean-field/field", r[True][1], r[False][1], tempogen.trunc_tol(p, 100.0, scale=amax))
